@@ -362,6 +362,16 @@ def _downstream_uses(ctx: Ctx, f: Func, evalcall: ast.Call, fld: str) -> list[Te
     return out
 
 
+def _is_weights_path(attr_t, whole) -> bool:
+    """`self._cache_for_gradient.realizations.objective_weights`: the cached function result is the documented source of
+    the *weights* of a gradient-only request (C07.5 decides that it belongs to the requested point); only the flags
+    themselves must not be kept."""
+    for y in subterms(whole):
+        if y[0] == "attr" and y[2] in ("objective_weights", "constraint_weights") and any(z == attr_t for z in subterms(y)):
+            return True
+    return False
+
+
 # --------------------------------------------------------------------- C06.3
 @rule(P)
 def c06_3(ctx: Ctx) -> RuleResult:
@@ -392,6 +402,46 @@ def c06_3(ctx: Ctx) -> RuleResult:
         ok = (ny[1] == "<" and ny[2] == C(0) and other[0] == "call" and other[1] == G("numpy.abs")) or ny[1] == "!="
         res.add(g_, g_.node, "active == (abs(weights) > 0): every non-zero weight is active, every zero weight inactive", ok,
                 "" if ok else f"an active flag is computed as `{show(y, 60)}`: a non-zero (e.g. negative) weight can be flagged inactive", construct=f"{g_.name}: active flag {show(y, 40)}")
+    # the flags of a request are derived in the call that makes the request, from that call's weights: never read
+    # back from a field of the evaluator that an earlier call stored (the weights of the cached function result
+    # change from point to point, e.g. under a sort / CVaR filter)
+    ee_ = ctx.repo.cls("ropt.ensemble_evaluator._ensemble_evaluator.EnsembleEvaluator")
+    state_ = set()
+    for m_ in ee_.methods.values():
+        if m_.name == "__init__":
+            continue
+        for n_ in nodes_in(m_, (ast.Assign, ast.AnnAssign, ast.AugAssign)):
+            for t_ in (n_.targets if isinstance(n_, ast.Assign) else [n_.target]):
+                if isinstance(t_, ast.Attribute) and isinstance(t_.value, ast.Name) and m_.positional and t_.value.id == m_.positional[0]:
+                    state_.add(t_.attr)
+    n_args = 0
+    for m_ in ee_.methods.values():
+        for c_ in calls_in(m_):
+            from ..callgraph import bind_args as _bind
+
+            bound_args = []
+            for g_ in ctx.cg.callees_of_call(m_, c_):
+                if g_.cls is None and any(p_.startswith("active") for p_ in g_.params):
+                    ct_ = X.at(m_, c_)
+                    if ct_[0] == "call":
+                        bound_args = [(pn_, at_) for pn_, at_ in _bind(g_, ct_, False).items() if pn_.startswith("active") and at_ is not None]
+                    break
+
+            class _KW:  # positional and keyword arguments alike, as (parameter name, term)
+                def __init__(self, arg, term):
+                    self.arg, self.term = arg, term
+
+            for kw_ in [_KW(pn_, at_) for pn_, at_ in bound_args]:
+                if kw_.arg and kw_.arg.startswith("active"):
+                    n_args += 1
+                    t_ = kw_.term
+                    selfp = ("param", m_.qualname, m_.positional[0]) if m_.positional else None
+                    stale = sorted({y[2] for y in subterms(t_) if y[0] == "attr" and y[1] == selfp and y[2] in state_ and not _is_weights_path(y, t_)})
+                    ok_ = not stale
+                    res.add(m_, c_, f"`{kw_.arg}` is derived in this call from this call's weights", ok_,
+                            "" if ok_ else f"`{kw_.arg}` is read from `self.{stale[0]}`, which an earlier request stored: after the weights changed (another point, a filter) entries are flagged "
+                            "active / inactive by the old weights - the evaluator's garbage for 'inactive' entries enters the gradient",
+                            construct=f"{m_.name}: {kw_.arg} fresh")
     f = None
     for g in ctx.repo.funcs_in(MOD):
         if g.cls is None and "objective_weights" in g.params:
